@@ -361,6 +361,7 @@ func c06b(c *Ctx, a *absVariant) {
 		})
 	}
 	r.Check(okS1 && okS2, "C06-b2", "T.setMemoized:stores-under-savepoint-offset-and-node", vn, v.Where(sm.Pos()), "p.memo[pt.offset][node] = tuple", fmt.Sprintf("offset-key=%t store=%t", okS1, okS2))
+	memoTableTotal(c, v, "C06-b2")
 	// every expression evaluation passes the memo: parseExpr has parseExprWrap as its only caller
 	var pc []string
 	for _, f := range v.Funcs() {
@@ -526,4 +527,92 @@ func c06d(c *Ctx, a *absVariant) {
 	} else {
 		r.Ok("C06-d", "T.parseRuleWrap:memo-not-for-left-recursive-rules", v.Name, v.Where(res.Fn.Pos()), "rule memo only under !rule.leftRecursive")
 	}
+}
+
+// memoTableTotal: the memo table is a total store. setMemoized stores the tuple on every path (conditions may only
+// create the missing maps) and getMemoized reports a miss only when the table or the per-offset map is empty and
+// otherwise returns the map's own answer. Callers - the packrat wrappers and, above all, the growth loop of a
+// left-recursive leader, which overwrites the failure seed with each larger result - rely on "what was set is what is got".
+func memoTableTotal(c *Ctx, v *variants.Variant, rule string) {
+	r := c.R
+	vn := v.Name
+	gm, sm := v.Func("parser", "getMemoized"), v.Func("parser", "setMemoized")
+	if gm == nil || sm == nil || gm.Body == nil || sm.Body == nil {
+		return
+	}
+	var sp []string
+	for _, f := range sm.Type.Params.List {
+		for _, nm := range f.Names {
+			sp = append(sp, nm.Name)
+		}
+	}
+	if len(sp) != 3 {
+		r.Unk(rule, "T.setMemoized:stores-on-every-path", vn, v.Where(sm.Pos()), "unexpected parameter list")
+		return
+	}
+	var bad []string
+	paths := enumPaths(sm.Body)
+	for _, p := range paths {
+		for _, gd := range p.guards() {
+			t := gd[1:]
+			if !(t == "p.memo==nil" || strings.HasSuffix(t, "==nil") && !strings.Contains(t, sp[2]) || strings.HasPrefix(t, "len(") && strings.HasSuffix(t, ")==0") && !strings.Contains(t, sp[2])) {
+				bad = append(bad, "the store depends on `"+t+"`: a result that is not stored is evaluated again (C06 bound) and a left-recursive leader keeps its failure seed instead of the grown result")
+			}
+		}
+		stored := false
+		for _, e := range p {
+			if as, ok := e.Node.(*ast.AssignStmt); ok && e.Kind == "assign" && len(as.Lhs) == 1 && strings.HasSuffix(nospace(as.Lhs[0]), "["+sp[1]+"]") && nospace(as.Rhs[0]) == sp[2] {
+				stored = true
+			}
+		}
+		if !stored {
+			bad = append(bad, "a path ["+strings.Join(p.guards(), " ")+"] returns without storing the tuple")
+		}
+	}
+	r.Check(len(bad) == 0 && len(paths) > 0, rule, "T.setMemoized:stores-on-every-path", vn, v.Where(sm.Pos()), fmt.Sprintf("%d paths, each ends with the store; conditions only create missing maps", len(paths)), strings.Join(uniq(bad), "; "))
+	bad = nil
+	node := firstParam(gm)
+	paths = enumPaths(gm.Body)
+	nHit := 0
+	for _, p := range paths {
+		last := p[len(p)-1]
+		if last.Kind != "return" {
+			bad = append(bad, "a path does not return")
+			continue
+		}
+		if strings.HasSuffix(last.Text, ",false") {
+			// a miss: must be justified by an emptiness test taken positively
+			just := false
+			for _, e := range p {
+				if e.Kind == "+" && (strings.HasPrefix(e.Text, "len(") && strings.HasSuffix(e.Text, ")==0") || strings.HasSuffix(e.Text, "==nil")) && !strings.Contains(e.Text, node) {
+					just = true
+				}
+			}
+			if !just {
+				bad = append(bad, "a miss is reported on the path ["+strings.Join(p.guards(), " ")+"] although the table was not found empty")
+			}
+			continue
+		}
+		nHit++
+		// the answer of the map lookup itself
+		okLookup := false
+		for _, e := range p {
+			if as, ok := e.Node.(*ast.AssignStmt); ok && e.Kind == "assign" && len(as.Lhs) == 2 && len(as.Rhs) == 1 && strings.HasSuffix(nospace(as.Rhs[0]), "["+node+"]") && last.Text == nospace(as.Lhs[0])+","+nospace(as.Lhs[1]) {
+				okLookup = true
+			}
+		}
+		if !okLookup {
+			bad = append(bad, "the hit path returns "+last.Text+", not the result of the map lookup by node")
+		}
+		for _, gd := range p.guards() {
+			t := gd[1:]
+			if !(strings.HasPrefix(t, "len(") && strings.HasSuffix(t, ")==0") || strings.HasSuffix(t, "==nil")) || strings.Contains(t, node) {
+				bad = append(bad, "the lookup depends on `"+t+"`")
+			}
+		}
+	}
+	if nHit == 0 {
+		bad = append(bad, "no path returns the stored tuple")
+	}
+	r.Check(len(bad) == 0, rule, "T.getMemoized:returns-what-was-stored", vn, v.Where(gm.Pos()), fmt.Sprintf("%d paths: misses only for an empty table, otherwise the map's answer", len(paths)), strings.Join(uniq(bad), "; "))
 }
